@@ -223,8 +223,8 @@ func (h *harness) sendAfter() *vh.Failure {
 		}
 		// The sender does not come back. A goroutine cannot be stopped from outside,
 		// but this one asks the connection for the packet size on every round: a
-		// legal size from the server lets it finish. (Twice: the first packet may only
-		// flush what the case left in the receive queue.)
+		// legal size from the server lets it finish. (Several times: the first packets
+		// may only flush what the case left in the receive queue.)
 		rescued = true
 		for i := 0; i < 3; i++ {
 			try(func() { h.ch.WritePacket(rescuePacket) })
